@@ -178,7 +178,14 @@ class OrderedSet(AbstractSet[T]):
             self._data.append(item)
 
     def __hash__(self) -> int:
-        return self._hash()
+        return hash(tuple(self._data))
+
+    def __eq__(self, other: object) -> bool:
+        # Unlike a plain set, the order is part of the value: it decides how the
+        # owning marker is rendered, and equal objects must be interchangeable.
+        if isinstance(other, OrderedSet):
+            return self._data == other._data
+        return super().__eq__(other)
 
     def __contains__(self, obj: object) -> bool:
         return obj in self._data
